@@ -87,7 +87,7 @@ theorem ends_iff (P : Params μ ε ι σ ο τ) (s : St μ σ ο τ) (k : Nat) :
       simp [specPolls, this] at hm
     simp [List.getElem?_eq_getElem hk, hne, Nat.not_le.mpr hk]
   · have hk' : (specPolls P s).length ≤ k := Nat.le_of_not_lt hk
-    simp [List.getElem?_eq_none hk', exhausted, hk']
+    simp [exhausted, hk']
 
 /-- After the end nothing else ever comes (as long as the inner stream keeps reporting its end). -/
 theorem after_end_always_none (P : Params μ ε ι σ ο τ) (s : St μ σ ο τ) (k j : Nat)
@@ -108,7 +108,7 @@ theorem pending_count (P : Params μ ε ι σ ο τ) (s : St μ σ ο τ) :
     intro t items
     induction items generalizing t with
     | nil => rfl
-    | cons i items ih => cases i <;> simp [specTrace, List.countP_cons, List.countP_append, hb, ih]
+    | cons i items ih => cases i <;> simp [specTrace, List.countP_append, hb, ih]
   simp [specPolls, List.countP_append, hb, ht]
 
 theorem pending_after_script_iff (P : Params μ ε ι σ ο τ) (s : St μ σ ο τ) (k : Nat)
@@ -272,6 +272,59 @@ theorem ok_only_from_data {ι : Type} (de : De ι) (m : Except WsError WsMessage
     | pong p => simp [parse, processPong] at h
     | close f => simp [parse, processCloseFrame] at h
     | frame f => simp [parse, processFrame] at h
+
+/-- **The parser refines its documentation**: wherever the documented decision table determines
+the result, `parse` returns it. -/
+theorem parse_refines_spec {ι : Type} (de : De ι) (m : Except WsError WsMessage) (r : Parsed ι)
+    (h : specParse de m = some r) : parse de m = r := by
+  cases m with
+  | error e => simp [specParse] at h; simp [parse, ← h]
+  | ok w =>
+    cases w with
+    | text t => simp [specParse, disposition] at h; simp [parse, processText, ← h]
+    | binary b =>
+      simp only [specParse, disposition] at h
+      cases hd : de.binary b with
+      | some x => simp [hd] at h; simp [parse, processBinary, hd, ← h]
+      | none =>
+        simp only [hd, payloadText] at h
+        cases hu : utf8Decode b with
+        | ok cs => simp [hu] at h; simp [parse, processBinary, hd, binaryPayloadText, hu, ← h]
+        | err v l => simp [hu] at h
+    | ping p => simp [specParse, disposition] at h; simp [parse, processPing, ← h]
+    | pong p => simp [specParse, disposition] at h; simp [parse, processPong, ← h]
+    | close f => simp [specParse, disposition] at h; simp [parse, processCloseFrame, ← h]
+    | frame f => simp [specParse, disposition] at h; simp [parse, processFrame, ← h]
+
+/-- The documentation is silent in exactly one situation: a binary payload that is not UTF-8 and
+does not deserialise. -/
+theorem spec_silent_iff {ι : Type} (de : De ι) (m : Except WsError WsMessage) :
+    specParse de m = none ↔
+      ∃ b v l, m = .ok (.binary b) ∧ de.binary b = none ∧ utf8Decode b = .err v l := by
+  cases m with
+  | error e => simp [specParse]
+  | ok w =>
+    cases w with
+    | text t => simp [specParse, disposition]
+    | binary b =>
+      simp only [specParse, disposition]
+      cases hd : de.binary b with
+      | some x => simp [hd]
+      | none =>
+        simp only [payloadText]
+        cases hu : utf8Decode b with
+        | ok cs => simp [hu]
+        | err v l => simp [hd, hu]
+    | ping p => simp [specParse, disposition]
+    | pong p => simp [specParse, disposition]
+    | close f => simp [specParse, disposition]
+    | frame f => simp [specParse, disposition]
+
+/-- `is_websocket_disconnected` agrees with tungstenite's documentation wherever that settles the
+question. -/
+theorem disconnected_refines_spec (e : WsError) (b : Bool) (h : specDisconnected e = some b) :
+    isWebsocketDisconnected e = b := by
+  cases e <;> simp_all [specDisconnected, isWebsocketDisconnected]
 
 /-- **`Close` does not end an `ExchangeStream`** (for every deserialiser, error conversion and
 transformer): it becomes one `Terminated` error item and the following messages are still
@@ -663,6 +716,136 @@ theorem extract_all_missing {J α : Type} (de : J → Option α) (names : List S
 theorem se_element_is_singleton {α : Type} (x : α) :
     seElementToVector x = [x] ∧ (seElementToVector x).length = 1 := ⟨rfl, rfl⟩
 
+/-! ## D. End to end from the characters; laziness; link to C12 -/
+
+/-- The value a decimal numeral `ip.fp` denotes. -/
+def decimalValue (ip fp : List Char) : Rat :=
+  (natOfDigits (ip ++ fp) : Rat) * pow10Rat (-(fp.length : Int))
+
+/-- `f64::from_str` reads a numeral as the rounding of the value it denotes: integer numerals,
+decimal numerals, with a leading `-`. (Exponents: `parseNumber`.) -/
+theorem f64_from_str_numerals (sem : FloatSem) (ip fp : List Char) (hip : ip.all isDigit = true)
+    (hfp : fp.all isDigit = true) (hne : ip ≠ [] ∨ fp ≠ []) :
+    parseF64Str sem (ip ++ '.' :: fp) = .ok (sem.round (decimalValue ip fp)) ∧
+    parseF64Str sem ('-' :: (ip ++ '.' :: fp)) = .ok (sem.round (-decimalValue ip fp)) ∧
+    (ip ≠ [] → parseF64Str sem ip = .ok (sem.round (natOfDigits ip : Rat))) := by
+  have h := parseNumber_decimal ip fp hip hfp hne
+  refine ⟨parseF64Str_number sem _ _ h, parseF64Str_negative sem _ _ h, ?_⟩
+  intro hi
+  exact parseF64Str_number sem _ _ (parseNumber_integer ip hip hi)
+
+/-- Anything that starts with something other than a sign, a digit or a dot and is not one of the
+three words is rejected; so is the empty string. -/
+theorem f64_from_str_rejects (sem : FloatSem) :
+    parseF64Str sem [] = .error eFloatEmpty ∧ parseF64Str sem " 1".toList = .error eFloatInvalid ∧
+    parseF64Str sem "1 ".toList = .error eFloatInvalid ∧ parseF64Str sem ".".toList = .error eFloatInvalid ∧
+    parseF64Str sem "1e".toList = .error eFloatInvalid ∧ parseF64Str sem "1,5".toList = .error eFloatInvalid ∧
+    parseF64Str sem "+-1".toList = .error eFloatInvalid ∧ parseF64Str sem "0x10".toList = .error eFloatInvalid := by
+  refine ⟨?_, ?_, ?_, ?_, ?_, ?_, ?_, ?_⟩ <;> rfl
+
+/-- **End to end, from the characters**: for every decimal numeral `ip.fp` (any number of digits),
+every rounding `sem` that moves its value `d` by at most `δ` to a finite non-negative `q < 2⁶⁴`
+inside chrono's range, `de_str_f64_epoch_s_as_datetime_utc` returns an instant within
+`δ·10⁹ + ½` ns of `d` seconds. -/
+theorem f64_s_decimal_within_tolerance (sem : FloatSem) (ip fp : List Char) (hip : ip.all isDigit = true)
+    (hfp : fp.all isDigit = true) (hne : ip ≠ [] ∨ fp ≠ []) (q δ : Rat)
+    (hround : sem.round (decimalValue ip fp) = .finite q) (h0 : 0 ≤ q) (h1 : q < (2 : Rat) ^ 64)
+    (hδ : q - decimalValue ip fp ≤ δ ∧ decimalValue ip fp - q ≤ δ)
+    (hr : (roundHalfEven (q * nanosPerSec)).toNat / nanosPerSec ≤ maxChronoSecs) :
+    ∃ t : Nat, deStrF64EpochS sem (.str (ip ++ '.' :: fp) false) = .ok t ∧
+      (t : Rat) - decimalValue ip fp * nanosPerSec ≤ δ * nanosPerSec + 1 / 2 ∧
+      decimalValue ip fp * nanosPerSec - (t : Rat) ≤ δ * nanosPerSec + 1 / 2 := by
+  have hp := (f64_from_str_numerals sem ip fp hip hfp hne).1
+  rw [hround] at hp
+  exact ⟨_, f64_s_value sem _ q hp h0 h1 hr, f64_s_within_tolerance _ q δ h0 hδ⟩
+
+/-- ... and `de_str_f64_epoch_ms_as_datetime_utc` returns the whole millisecond at or below the
+rounded value. -/
+theorem f64_ms_decimal_end_to_end (sem : FloatSem) (ip fp : List Char) (hip : ip.all isDigit = true)
+    (hfp : fp.all isDigit = true) (hne : ip ≠ [] ∨ fp ≠ []) (q : Rat)
+    (hround : sem.round (decimalValue ip fp) = .finite q) (h0 : 0 ≤ q) (h1 : q < (2 : Rat) ^ 64)
+    (hr : q.floor.toNat / 1000 ≤ maxChronoSecs) :
+    deStrF64EpochMs sem (.str (ip ++ '.' :: fp) false) = .ok (specEpochMs q.floor.toNat) := by
+  have hp := (f64_from_str_numerals sem ip fp hip hfp hne).1
+  rw [hround] at hp
+  exact f64_ms_value sem _ q hp h0 h1 hr
+
+/-- A negative numeral: milliseconds silently become the epoch, seconds panic. -/
+theorem negative_numeral (sem : FloatSem) (ip fp : List Char) (hip : ip.all isDigit = true)
+    (hfp : fp.all isDigit = true) (hne : ip ≠ [] ∨ fp ≠ []) (q : Rat)
+    (hround : sem.round (-decimalValue ip fp) = .finite q) (hq : q < 0) :
+    deStrF64EpochMs sem (.str ('-' :: (ip ++ '.' :: fp)) false) = .ok 0 ∧
+    deStrF64EpochS sem (.str ('-' :: (ip ++ '.' :: fp)) false) = .panic := by
+  have hp := (f64_from_str_numerals sem ip fp hip hfp hne).2.1
+  rw [hround] at hp
+  exact ⟨f64_ms_negative_is_epoch sem _ q hp hq,
+    f64_s_panics sem _ _ hp (Or.inr (Or.inr ⟨q, rfl, Or.inl hq⟩))⟩
+
+/-- **Laziness**: a poll from an empty buffer reads the inner stream only as far as needed — the
+entries it consumed before the one that produced its result contributed nothing (no output, no
+`Pending`), so no message is transformed before the outputs of its predecessors were handed out. -/
+theorem poll_is_lazy (P : Params μ ε ι σ ο τ) (s : St μ σ ο τ) (hb : s.buffer = []) :
+    ((pollNext P s).1.stream.items = [] ∧ specTrace P s.transformer s.stream.items = []) ∨
+    ∃ pre last, s.stream.items = pre ++ last :: (pollNext P s).1.stream.items ∧
+      specTrace P s.transformer pre = [] ∧
+      specTrace P (specState P s.transformer (messages pre)) [last] ≠ [] := by
+  rcases s with ⟨⟨items, ended⟩, t, buffer⟩
+  cases hb
+  simpa [pollNext] using pollInner_minimal P ended t items
+
+/-- An ASCII payload is its own text (so a failed ASCII binary payload is reported verbatim). -/
+theorem ascii_binary_failure_verbatim {ι : Type} (de : De ι) (b : List Nat) (ha : ∀ x ∈ b, x < 0x80)
+    (h : de.binary b = none) :
+    parse de (.ok (.binary b)) = some (.error (.deserialise (String.ofList (b.map Char.ofNat)))) :=
+  binary_failure_carries_payload de b _ (utf8Decode_ascii b ha) h
+
+/-- Scientific notation: `ip.fp e ds` denotes `ip.fp · 10^ds`, `ip.fp e-ds` denotes `ip.fp · 10^-ds`. -/
+theorem f64_from_str_scientific (sem : FloatSem) (ip fp ds : List Char) (hip : ip.all isDigit = true)
+    (hfp : fp.all isDigit = true) (hds : ds.all isDigit = true) (hne : ip ≠ [] ∨ fp ≠ []) (hdne : ds ≠ []) :
+    parseF64Str sem (ip ++ '.' :: (fp ++ 'e' :: ds)) =
+      .ok (sem.round (decimalValue ip fp * pow10Rat (natOfDigits ds : Int))) ∧
+    parseF64Str sem (ip ++ '.' :: (fp ++ 'e' :: '-' :: ds)) =
+      .ok (sem.round (decimalValue ip fp * pow10Rat (-(natOfDigits ds : Int)))) := by
+  have h := parseNumber_scientific ip fp ds hip hfp hds hne hdne
+  have hpow : ∀ a b : Int, pow10Rat (a + b) = pow10Rat a * pow10Rat b := by
+    intro a b; unfold pow10Rat; exact Rat.zpow_add (by decide) a b
+  constructor
+  · rw [parseF64Str_number sem _ _ h.1]
+    congr 2
+    unfold decimalValue
+    rw [show ((natOfDigits ds : Int) - (fp.length : Int)) = -(fp.length : Int) + (natOfDigits ds : Int) by omega,
+      hpow, Rat.mul_assoc]
+  · rw [parseF64Str_number sem _ _ h.2]
+    congr 2
+    unfold decimalValue
+    rw [show (-(natOfDigits ds : Int) - (fp.length : Int)) = -(fp.length : Int) + -(natOfDigits ds : Int) by omega,
+      hpow, Rat.mul_assoc]
+
+/-- Any value of `2⁶⁴` ms or more saturates to `u64::MAX` ms and panics. -/
+theorem f64_ms_huge_panics (sem : FloatSem) (cs : List Char) (q : Rat)
+    (hp : parseF64Str sem cs = .ok (.finite q)) (h : (2 : Rat) ^ 64 ≤ q) :
+    deStrF64EpochMs sem (.str cs false) = .panic := by
+  have hn : ¬ q < 0 := by
+    have : (0 : Rat) < (2 : Rat) ^ 64 := by decide +kernel
+    grind
+  have hfl : (18446744073709551616 : Int) ≤ q.floor := by
+    rw [Rat.le_floor_iff, two_pow_64]; exact h
+  have hmin : min q.floor.toNat u64Max = u64Max := by
+    apply Nat.min_eq_right
+    have : u64Max = 18446744073709551615 := by decide
+    rw [this]; omega
+  simp only [deStrF64EpochMs, deStr, hp, f64AsU64, if_neg hn, hmin]
+  decide
+
+/-- **Link to C12**: whatever an `ExchangeStream` does, the items it hands out and whether it ends
+form one connection script `Conn.initOk elems hang` of the reconnecting-stream model
+(`Model/Streams.lean`), whose theorems (C12) quantify over all such scripts. -/
+theorem exchange_stream_is_a_c12_connection (P : Params μ ε ι σ ο τ) (s : St μ σ ο τ)
+    (val : ο → Nat) (errId : τ → Nat) (terminal : τ → Bool) :
+    Streams.connStream ((future P s).map (toElem val errId terminal)) (!s.stream.ended) =
+      ⟨(future P s).map (fun o => .yield (toRes val errId terminal o)), s.stream.ended⟩ := by
+  simp [Streams.connStream, elemSteps_map_toElem]
+
 /-! ## Non-vacuity -/
 
 section examples
@@ -698,6 +881,24 @@ example : deU64EpochMs (.uint 1661978265280) = .ok 1661978265280000000 := by dec
 example : (parseU64Str "+007".toList).toOption = some 7 := by decide
 example : (parseU64Str "-5".toList).toOption = none := by decide
 example : (parseU64Str "18446744073709551616".toList).toOption = none := by decide
+
+example : decimalValue "1661978265".toList "280067".toList = 1661978265280067 / 1000000 := by decide +kernel
+
+/-! The concrete IEEE-754 rounding used by the driver (`ieee`), evaluated by the kernel: the
+hypotheses of the `f64` theorems are satisfiable, and the conventions show on ordinary inputs. -/
+example : ieee.round (decimalValue "1661978265".toList "280067".toList) = .finite (3485421042988623 / 2097152) := by
+  decide +kernel
+example : deStrF64EpochS ieee (.str "1661978265.280067".toList false) = .ok 1661978265280066967 := by
+  decide +kernel
+example : deStrF64EpochS ieee (.str "0.0009765625".toList false) = .ok 976562 := by decide +kernel
+example : deStrF64EpochS ieee (.str "0.0029296875".toList false) = .ok 2929688 := by decide +kernel
+example : deStrF64EpochMs ieee (.str "1661978265280.9".toList false) = .ok 1661978265280000000 := by
+  decide +kernel
+example : deStrF64EpochS ieee (.str "-1".toList false) = .panic := by decide +kernel
+example : deStrF64EpochS ieee (.str "nan".toList false) = .panic := by decide +kernel
+example : deStrF64EpochMs ieee (.str "-5".toList false) = .ok 0 := by decide +kernel
+example : deStrF64EpochMs ieee (.str "inf".toList false) = .panic := by decide +kernel
+example : deStrU64EpochMs (.str "8210266876800000".toList false) = .panic := by decide +kernel
 
 end examples
 
